@@ -58,7 +58,7 @@ SetParents == Modules \cup Sections \cup Intervals
 Children  == Nodes \ IRs
 LazyOwners == Sections \cup Intervals
 TagHolders == IRs \cup Modules \cup Sections \cup Exprs
-ScalHolders == Modules \cup Sections \cup Symbols \cup CodeBlocks \cup Exprs
+ScalHolders == IRs \cup Modules \cup Sections \cup Symbols \cup CodeBlocks \cup Exprs
 
 \* The five set-valued parent/child relations ("mod", the IR's module list, is the sixth).
 Rels == {"sec", "sym", "prx", "biv", "blk"}
@@ -73,7 +73,8 @@ ParentsOf(c) == IF c \in Modules THEN IRs ELSE RelParents(RelOf(c))
 \* expression kinds / second symbols default to SymAddrConst / none when a configuration does not say
 KindOf(e) == IF e \in DOMAIN ExprKind THEN ExprKind[e] ELSE "ac"
 Sym2Of(e) == IF e \in DOMAIN ExprSym2 THEN ExprSym2[e] ELSE NONE
-FieldsOf(h) == IF h \in Modules THEN {"name", "binary_path", "isa", "file_format", "byte_order",
+FieldsOf(h) == IF h \in IRs THEN {"version"}     \* "CUR" is this API's protobuf version
+               ELSE IF h \in Modules THEN {"name", "binary_path", "isa", "file_format", "byte_order",
                                       "preferred_addr", "rebase_delta"}
                ELSE IF h \in Sections THEN {"name"}
                ELSE IF h \in Symbols THEN {"at_end"}
@@ -323,6 +324,24 @@ SetMut(r, p) ==
        /\ A # {} /\ B # {} /\ A \cap B = {}
        /\ DoTree(O("set.update", [a |-> A, b |-> B, n |-> 2], NONE),
                  FoldAttachSet(S0, p, SetToSeq(A \cup B)))
+
+\* Arguments that are nodes of another kind (a symbol offered to module.sections, a block to
+\* section.byte_intervals, ...): never members, so -- as for a built-in set -- discard and -= leave
+\* everything alone, remove raises KeyError, the non-mutating operations see a non-member.  A module owns
+\* three sets whose elements share one back pointer: "is a child of this module" is not "is a member".
+SetForeign(r, p) ==
+  LET C == Coll(p, r)
+      O(nm, extra, res) == [name |-> nm, r |-> r, p |-> p, res |-> res] @@ extra
+  IN \E c \in Children \ RelChildren(r) :
+       \/ DoTree(O("set.discard", [c |-> c], NONE), S0)
+       \/ DoTree(O("set.remove", [c |-> c], Exc("KeyError")), S0)
+       \/ \E M \in UpTo(C, 1) :
+            \/ DoTree(O("set.isub", [a |-> M \cup {c}], NONE), FoldDetach(S0, SetToSeq(M)))
+            \/ DoTree(O("set.iand", [a |-> M \cup {c}], NONE), FoldDetach(S0, SetToSeq(C \ M)))
+            \/ DoQuery(O("set.sub", [a |-> M \cup {c}], C \ M))
+            \/ DoQuery(O("set.and", [a |-> M \cup {c}], M))
+            \/ DoQuery(O("set.isdisjoint", [a |-> M \cup {c}], M = {}))
+            \/ DoQuery(O("set.ge", [a |-> M \cup {c}], FALSE))
 
 SetQuery(r, p) ==
   LET C == Coll(p, r)
@@ -723,10 +742,38 @@ ModuleMsg(m) == [uuid |-> m, scal |-> scal[m], entry |-> entry[m], aux |-> tags[
                  symbols |-> {SymbolMsg(y) : y \in kids[m] \cap Symbols}]
 EdgeMsg(e) == [src |-> e[1], tgt |-> e[2], label |-> e[3]]
 \* what deep_eq compares: everything but the CFG vertex list (and module order, AuxData values)
-Content(i) == [uuid |-> i, aux |-> tags[i], modules |-> {ModuleMsg(m) : m \in ToSet(mods[i])},
-               edges |-> {EdgeMsg(e) : e \in cfg[i]}]
+Content(i) == [uuid |-> i, version |-> scal[i]["version"], aux |-> tags[i],
+               modules |-> {ModuleMsg(m) : m \in ToSet(mods[i])}, edges |-> {EdgeMsg(e) : e \in cfg[i]}]
 MsgOf(i) == [content |-> Content(i), module_order |-> mods[i],
              vertices |-> Sub(S0, i) \cap CfgNodes]
+
+\* what deep_eq of a node below the IR compares: its own message, and -- where it refers to another
+\* node (payload, entry point, the symbols of an expression) -- that node's deep content, not its UUID only
+DeepBlk(b) == IF b \in Blocks THEN BlockMsg(b)
+              ELSE [uuid |-> b, offset |-> 0, size |-> 0, kind |-> "proxy", decode_mode |-> "-"]
+DeepSym(y) == [msg |-> SymbolMsg(y), ref |-> IF pay[y] \in Referents THEN {DeepBlk(pay[y])} ELSE {}]
+DeepSyms(k, e) == {<<k, 1, DeepSym(ExprSym[e])>>} \cup (IF KindOf(e) = "aa" THEN {<<k, 2, DeepSym(Sym2Of(e))>>} ELSE {})
+DeepInterval(v) == [msg |-> IntervalMsg(v), syms |-> UNION {DeepSyms(kv[1], kv[2]) : kv \in symx[v]}]
+DeepSection(s) == [msg |-> SectionMsg(s), ivs |-> {DeepInterval(v) : v \in kids[s]}]
+DeepModule(m) == [msg |-> ModuleMsg(m), secs |-> {DeepSection(x) : x \in kids[m] \cap Sections},
+                  syms |-> {DeepSym(y) : y \in kids[m] \cap Symbols},
+                  entry |-> IF entry[m] = NONE THEN {} ELSE {DeepBlk(entry[m])}]
+ShadowOf(i) ==
+  LET R == Sub(S0, i) IN
+  [content |-> Content(i),
+   dm |-> [m \in R \cap Modules |-> DeepModule(m)], ds |-> [x \in R \cap Sections |-> DeepSection(x)],
+   dv |-> [v \in R \cap Intervals |-> DeepInterval(v)], dy |-> [y \in R \cap Symbols |-> DeepSym(y)],
+   db |-> [b \in R \cap Referents |-> DeepBlk(b)]]
+\* nodes of IR i that have a twin in its shadow, and whether node.deep_eq(twin) must hold
+Twinned(i) == IF shadow[i] = NoShadow THEN {}
+              ELSE (Sub(S0, i) \ {i}) \cap (DOMAIN shadow[i].dm \cup DOMAIN shadow[i].ds \cup DOMAIN shadow[i].dv
+                                              \cup DOMAIN shadow[i].dy \cup DOMAIN shadow[i].db)
+NodeDeq(i, n) ==
+  IF n \in Modules THEN DeepModule(n) = shadow[i].dm[n]
+  ELSE IF n \in Sections THEN DeepSection(n) = shadow[i].ds[n]
+  ELSE IF n \in Intervals THEN DeepInterval(n) = shadow[i].dv[n]
+  ELSE IF n \in Symbols THEN DeepSym(n) = shadow[i].dy[n]
+  ELSE DeepBlk(n) = shadow[i].db[n]
 
 SelfContained(i) ==
   LET R == Sub(S0, i) IN
@@ -745,13 +792,19 @@ Closed(i) ==
   /\ \A m \in Modules \ R : entry[m] \notin R
   /\ \A j \in IRs \ {i} : \A e \in cfg[j] : e[1] \notin R /\ e[2] \notin R
   /\ \A e \in Exprs : (\E o \in Occurrences(e) : o[1] \in R) => Cardinality(Occurrences(e)) = 1
+\* An IR whose version attribute is not this API's protobuf version is saved with that number in the
+\* message (C02) and the file is then refused with ValueError (C17): nothing changes.
+ReloadRefused(i) ==
+  /\ On("reload") /\ SelfContained(i) /\ Closed(i) /\ scal[i]["version"] # "CUR"
+  /\ op' = [name |-> "reload", ir |-> i, res |-> Exc("ValueError"), msg |-> MsgOf(i)]
+  /\ UNCHANGED absView
 Reload(i) ==
-  /\ On("reload") /\ SelfContained(i) /\ Closed(i)
+  /\ On("reload") /\ SelfContained(i) /\ Closed(i) /\ scal[i]["version"] = "CUR"
   /\ LET R == Sub(S0, i) IN
      /\ built' = [o \in LazyOwners |-> IF o \in R THEN FALSE ELSE built[o]]
      /\ nev' = [o \in LazyOwners |-> IF o \in R THEN 0 ELSE nev[o]]
   /\ op' = [name |-> "reload", ir |-> i, res |-> NONE, msg |-> MsgOf(i)]
-  /\ shadow' = IF On("shadow") THEN [shadow EXCEPT ![i] = Content(i)] ELSE shadow
+  /\ shadow' = IF On("shadow") THEN [shadow EXCEPT ![i] = ShadowOf(i)] ELSE shadow
   /\ UNCHANGED <<mods, kids, par, cache, nidx, ridx, geomVars, symVars, symx, cfg, bytes, tags, entry, scal>>
 
 -----------------------------------------------------------------------------
@@ -776,6 +829,8 @@ WrongKind(i, s) ==
     [] s.site = "entry" -> R \cap (DataBlocks \cup Proxies \cup Symbols \cup Sections)
     [] s.site \in {"edge.src", "edge.tgt"} -> R \cap (DataBlocks \cup Symbols \cup Sections \cup Modules)
     [] s.site \in {"expr.sym1", "expr.sym2"} -> R \cap (Blocks \cup Proxies \cup Sections)
+\* two attached nodes written with one UUID (every reference to either then names that UUID)
+DupPairs(i) == {A \in UpTo(Sub(S0, i) \ {i}, 2) : Cardinality(A) = 2}
 OtherFaults == {"dup-uuid-same-kind", "dup-uuid-cross-kind", "unknown-enum", "uuid-too-short", "uuid-too-long",
                 "contents-exceed-size", "contents-exceed-zero-size",
                 "bad-magic", "bad-version-byte", "bad-version-field", "zero-version-field", "truncated-header"}
@@ -783,7 +838,7 @@ FaultExpect(f) == IF f \in {"bad-magic", "bad-version-byte", "bad-version-field"
                               "truncated-header"} THEN "ValueError"
              ELSE "reject-or-coherent"
 LoadFault(i) ==
-  /\ On("fault") /\ SelfContained(i)
+  /\ On("fault") /\ SelfContained(i) /\ scal[i]["version"] = "CUR"
   /\ \/ \E s \in RefSites(i) :
           \/ op' = [name |-> "loadfault", ir |-> i, msg |-> MsgOf(i), fault |-> "dangling", site |-> s, to |-> NONE,
                      expect |-> "DeserializationError", res |-> NONE]
@@ -793,6 +848,11 @@ LoadFault(i) ==
      \/ \E f \in OtherFaults :
           op' = [name |-> "loadfault", ir |-> i, msg |-> MsgOf(i), fault |-> f, site |-> Site("-", "-", "-", "-"),
                  to |-> NONE, expect |-> FaultExpect(f), res |-> NONE]
+     \/ \E A \in DupPairs(i) :
+          LET a == CHOOSE x \in A : TRUE
+              b == CHOOSE x \in A : x # a
+          IN op' = [name |-> "loadfault", ir |-> i, msg |-> MsgOf(i), fault |-> "dup-uuid", site |-> Site("dup", a, b, "-"),
+                    to |-> NONE, expect |-> "reject-or-coherent", res |-> NONE]
   /\ UNCHANGED absView
 
 -----------------------------------------------------------------------------
@@ -817,6 +877,7 @@ Next ==
   \/ G({"setparent"}) /\ \E c \in Children : \E p \in ParentsOf(c) \cup {NONE} : SetParent(c, p)
   \/ G(SetNames) /\ \E r \in Rels : OnR("set", r) /\ \E p \in RelParents(r) : SetMut(r, p)
   \/ G(SetQNames) /\ \E r \in Rels : OnR("setq", r) /\ \E p \in RelParents(r) : SetQuery(r, p)
+  \/ G(SetNames \cup SetQNames) /\ \E r \in Rels : OnR("xkind", r) /\ \E p \in RelParents(r) : SetForeign(r, p)
   \/ G(ListNames) /\ On("list") /\ \E i \in IRs : ListMut(i)
   \/ G(ListQNames) /\ On("listq") /\ \E i \in IRs : ListQuery(i)
   \/ \E v \in Intervals : \/ G({"attr.addr"}) /\ \E a \in Addrs \cup {NOADDR} : SetAddr(v, a)
@@ -835,7 +896,7 @@ Next ==
   \/ G({"lookup"}) /\ \E x \in Nodes, fam \in LFams, q \in Queries : Lookup(x, fam, q)
   \/ G({"new"}) /\ \E n \in Nodes : \E p \in (IF n \in IRs THEN {} ELSE ParentsOf(n)) \cup {NONE} :
        \E K \in UpTo(ChildKinds(n), ArgMax) : New(n, p, K)
-  \/ G({"reload"}) /\ \E i \in IRs, w \in 1..ReloadWeight : Reload(i)
+  \/ G({"reload"}) /\ \E i \in IRs, w \in 1..ReloadWeight : Reload(i) \/ ReloadRefused(i)
   \/ G({"loadfault"}) /\ \E i \in IRs : LoadFault(i)
 
 \* state constraints for "one perturbation, then ..." sweeps
@@ -883,8 +944,11 @@ Field(k) ==
     [] k = "built" -> built [] k = "nev" -> nev [] k = "scal" -> scal
     [] k = "deq" -> [i \in IRs |-> IF shadow[i] = NoShadow THEN "none"
                                    ELSE IF ~SelfContained(i) THEN "unknown"
-                                   ELSE IF Content(i) = shadow[i] THEN "equal" ELSE "differ"]
-    [] k = "shadowed" -> [i \in IRs |-> IF shadow[i] = NoShadow THEN "none" ELSE ToJson(shadow[i])]
+                                   ELSE IF Content(i) = shadow[i].content THEN "equal" ELSE "differ"]
+    [] k = "deqn" -> [i \in IRs |-> [n \in Twinned(i) |-> IF ~SelfContained(i) THEN "unknown"
+                                                           ELSE IF NodeDeq(i, n) THEN "equal" ELSE "differ"]]
+    [] k = "shadowed" -> [i \in IRs |-> IF shadow[i] = NoShadow THEN "none" ELSE ToJson(shadow[i].content)]
+    [] k = "mnamed" -> [i \in IRs |-> [nm \in ScalDom["name"] |-> {m \in ToSet(mods[i]) : scal[m]["name"] = nm}]]
     [] k = "irof" -> [c \in Children |-> IrOf(S0, c)]
     [] k = "modof" -> [c \in Children \ Modules |-> ModOf(c)]
     [] k = "secof" -> [c \in Intervals \cup Blocks |-> SecOf(c)]
